@@ -75,14 +75,17 @@ def plan(tier, seed):
 # ------------------------------------------------------------------------------------------------------------------
 
 
-def run_needle(hay: bytes, needle: bytes, buf: int, start, cur: int, limit: int):
+def run_needle(hay: bytes, needle: bytes, buf: int, start, cur: int, limit: int, move_to=None):
     from dissect.cobaltstrike import utils
 
     io.DEFAULT_BUFFER_SIZE = buf
     fh = io.BytesIO(hay)
     fh.seek(cur)
     try:
-        return list(itertools.islice(utils.iter_find_needle(fh, needle, start_offset=start, max_offset=limit), 200000))
+        it = utils.iter_find_needle(fh, needle, start_offset=start, max_offset=limit)
+        if move_to is not None:
+            fh.seek(move_to)  # the search was prepared; the handle is used for something else before it is consumed
+        return list(itertools.islice(it, 200000))
     except Exception as e:  # noqa
         return f"{type(e).__name__}: {e}"
 
@@ -133,6 +136,15 @@ def chunk_needle(chunk, acc):
                     bad = judge_needle(hay, needle, start_eff, limit, got)
                     key = (hay, buf, start, cur_eff, limit)
                     acc.case(key, nontrivial=bool(true_all) or bool(got), outcome=(tuple(got) if isinstance(got, list) else got))
+                    if not bad and start is not None and limit in (0, len(hay)):
+                        # an explicit start offset: the result does not depend on where the handle is between the
+                        # creation of the search and its consumption
+                        for mv in (len(hay), 0):
+                            got2 = run_needle(hay, needle, buf, start, cur_eff, limit, move_to=mv)
+                            acc.transitions += 1
+                            if got2 != got:
+                                acc.fail("C15/needle/depends-on-handle-position-after-creation", {"kind": "needle-moved", "hay": hx(hay), "needle": hx(needle), "buffer": buf, "start": start, "cur": cur_eff, "limit": limit, "moved_to": mv}, got, got2)
+                                break
                     if bad:
                         sig, exp = bad
                         if len(needle) == 1:
@@ -346,6 +358,10 @@ def chunk_ak_offsets(chunk, acc):
         acc.states += 1
         if p1 <= 20000:
             ak_judge(acc, data, 0, 0, None)
+        if p1 <= 1200:
+            # zero padding in front of the header, starting at every alignment
+            for lead in range(0, min(4, p1) + 1):
+                ak_judge(acc, b"\x01" * lead + b"\x00" * (p1 - lead) + hdr + body, 0, 0, None)
         if p1 < 200:
             # (should the scanner ever read through a buffer: every small buffer boundary as well)
             for S in (5, 7, 16):
@@ -393,6 +409,12 @@ def replay(case):
         start_eff = case["start"] if case["start"] is not None else case["cur"]
         bad = judge_needle(hay, needle, start_eff, case["limit"], got)
         return {"ok": bad is None, "expected": bad[1] if bad else got, "observed": got}
+    if case["kind"] == "needle-moved":
+        hay, needle = unhx(case["hay"]), unhx(case["needle"])
+        a = run_needle(hay, needle, case["buffer"], case["start"], case["cur"], case["limit"])
+        b = run_needle(hay, needle, case["buffer"], case["start"], case["cur"], case["limit"], move_to=case["moved_to"])
+        io.DEFAULT_BUFFER_SIZE = 8192
+        return {"ok": a == b, "expected": a, "observed": b}
     if case["kind"] == "straddle":
         needle = unhx(case["needle"])
         filler = unhx(case["filler"])
